@@ -23,6 +23,7 @@ def hs(title, prop_clause, extra=""):
         "level_note": HS_NOTE,
         "trusted": HS_TRUSTED,
         "assumptions": ["sends succeed while the connection is up (write faults are C12's subject)"],
+        "recheck": True,
     }
 
 PROPS = {
@@ -37,6 +38,7 @@ PROPS = {
         "assumptions": ["a send is atomic on the wire (monitored on the injected connection)"],
     },
     "C05": {
+        "recheck": True,
         "title": "Command responses are matched to their requests",
         "design_ref": "DESIGN.md section 5, C05; section 4 Model D (CmdTable)",
         "technique": "Coq proof of an inductive invariant of the pending-command LTS over all request sets (colliding ids), response sequences and schedules + differential correspondence on quiescent and gated histories",
@@ -48,6 +50,7 @@ PROPS = {
     "C06": hs("Data envelopes flow only while the session is established", "for C06 the send gate (ensureEstablished) is proved closed in every state but established for all five send operations and lifted over every handshake run, and the monitor's Dispatch and abort rules say that a data envelope reaches handlers only after the Established callback while a non-session input before establishment aborts the handshake (at most one failed envelope, then close).", " The send side is tied to the code by calling the five send operations on real Server/Client channels held by a scripted peer at every stage of handshake and teardown and counting what the peer sees."),
     "C07": hs("Server handshake follows the protocol order and fails closed", "for C07 the monitor enforces the stage automaton (offer, confirmation, authentication request, round trips only when the callback asked, established, one finished/failed), the single session id, and that a violating session envelope is answered with failed + reason followed by silence and close; the state-regression guard is never hit."),
     "C08": {
+        "recheck": True,
         "title": "Client handshake tolerates any server and reports establishment truthfully",
         "design_ref": "DESIGN.md section 5, C08; section 4 Model C",
         "technique": "Coq proof over all selector/authenticator functions and all server scripts (induction over the script on Model C) + differential correspondence: exhaustive server scripts against the real ClientChannel.EstablishSession",
@@ -59,6 +62,7 @@ PROPS = {
     "C09": hs("Only offered transport options are negotiated and both ends apply them", "for C09 the monitor requires offers to be exactly configured-and-supported, confirmations to repeat a pair chosen from the offer, SetEncryption right after the confirmation, and every later envelope and callback under the confirmed encryption.", " The client half and the agreement of both ends are covered by Model C and the composition (see C08)."),
     "C10": hs("A server that does not offer cleartext never authenticates over cleartext", "for C10 the monitor requires, whenever 'none' is not configured and a configured option is supported, that every authentication request, Authenticate/Register call and established envelope happens under a configured encryption."),
     "C12": {
+        "recheck": True,
         "title": "The TCP transport preserves the envelope stream under fragmentation and stalls",
         "design_ref": "DESIGN.md section 5, C12; section 4 Model E",
         "technique": "Coq proof by induction over arbitrary write oracles and read plans (Model E) + differential correspondence over an injected fault-scripting connection",
@@ -68,6 +72,7 @@ PROPS = {
         "assumptions": ["no Send is attempted after a failed Send on the same transport"],
     },
     "C16": {
+        "recheck": True,
         "title": "Inbound envelope size is bounded by the read limit",
         "design_ref": "DESIGN.md section 5, C16; section 4 Model E",
         "technique": "Coq proof (invariants over read plans: per-Receive budget, read-ahead <= limit, progress for frames within the limit) + differential correspondence with exact per-Receive byte counts",
@@ -96,6 +101,7 @@ PROPS = {
         "assumptions": ["Go stack depth / encoding/json's nesting limit are not modelled (fuel stands for depth)"],
     },
     "C11": {
+        "recheck": True,
         "title": "Replies built from an envelope are correctly correlated and addressed",
         "design_ref": "DESIGN.md section 5, C11; section 4 Model A (Builders)",
         "technique": "Coq proof (field equations of the builders + validity, round trip by the C01 theorem) + exhaustive differential correspondence against the real builders, Sender and the ping auto-reply on real sessions",
@@ -105,6 +111,7 @@ PROPS = {
         "assumptions": [],
     },
     "C20": {
+        "recheck": True,
         "title": "Each inbound envelope is dispatched to exactly the first matching handler",
         "design_ref": "DESIGN.md section 5, C20; section 4 Model F",
         "technique": "Coq proof by induction over handler tables and envelope sequences (Model F) + differential correspondence against EnvelopeMux/Server/Client",
